@@ -318,6 +318,7 @@ Dup(m) ==
 (* a response reaches the proposer: handler of doPreCommit / loop of broadcastAbortOrCommit *)
 
 Counts(p, r) == r.st = bc[p] /\ op[p] \in {"pc", "rollback", "abortrb", "commit"}
+Learn(p, r)  == ~r.err /\ ~r.acc /\ r.rver > version[p]
 
 \* broadcastAbortOrCommit, an Abort whose Send returned a transport error: the goroutine of that replica sleeps 1 s and
 \* sends the Abort again while the proposer's version is unchanged (ShouldRetry), whether or not broadcast() already
@@ -328,7 +329,6 @@ Counts(p, r) == r.st = bc[p] /\ op[p] \in {"pc", "rollback", "abortrb", "commit"
 BroadcastOpen(p, r) == r.st = bc[p] /\ op[p] \in {"rollback", "abortrb"} /\ need[p] > 0
 AbortResend(p, r)            == TRUE
 AbortResendUntilQuorum(p, r) == BroadcastOpen(p, r)
-Learn(p, r)  == ~r.err /\ ~r.acc /\ r.rver > version[p]
 
 Release(r) ==
   /\ r \in resps
